@@ -111,6 +111,7 @@ func idpAccepted(calls []harness.IdPCall) (accepted bool, asked bool) {
 }
 
 func c09Run(c *fw.Ctx) {
+	c.Retries = 2 // socket-based harness: tolerate a transient glitch while replaying a prefix
 	vtime.SetManual(harness.T0)
 	defer vtime.SetReal()
 	envs := &authEnvCache{}
